@@ -188,7 +188,36 @@ func MkR(r *RNG, v oracle.Val, prec uint, mode int) *decimal.Decimal {
 	return d
 }
 
+// MkLong returns v in a variable of precision prec whose mantissa is k words longer than that precision needs (the
+// extra low words are zero). Rounding never leaves such a mantissa behind, decoding does: GobDecode stores a payload
+// with zero low words as it comes. The value is an ordinary one - nothing may depend on the length of a mantissa.
+func MkLong(v oracle.Val, prec uint, mode int, k int) *decimal.Decimal {
+	dg := uint(oracle.Digits(v.Coef))
+	if prec < dg {
+		prec = dg
+	}
+	words := (int64(prec)+18)/19 + int64(k)
+	pad := 19*words - int64(dg)
+	a := Mk(oracle.Val{Form: oracle.Finite, Neg: v.Neg, Coef: new(big.Int).Mul(v.Coef, oracle.Pow10(pad)), Exp: v.Exp - pad}, uint(19*words), mode)
+	b, err := a.GobEncode()
+	if err != nil {
+		panic(MkError{"GobEncode: " + err.Error()})
+	}
+	binary.BigEndian.PutUint32(b[2:], uint32(prec))
+	d := new(decimal.Decimal)
+	if err := d.GobDecode(b); err != nil {
+		panic(MkError{"GobDecode of a payload with zero low words: " + err.Error()})
+	}
+	if got := Read(d); !oracle.Equal(got, v) || d.Prec() != prec || int(d.Mode()) != mode {
+		panic(MkError{fmt.Sprintf("built %s prec=%d, wanted %s prec=%d (long mantissa)", got, d.Prec(), v, prec)})
+	}
+	return d
+}
+
 func mkR(r *RNG, v oracle.Val, prec uint, mode int) *decimal.Decimal {
+	if v.Form == oracle.Finite && r != nil && prec < 1<<20 && r.Chance(3) {
+		return MkLong(v, prec, mode, r.Range(1, 3))
+	}
 	if v.Form == oracle.Finite || r == nil || !r.Chance(60) {
 		return Mk(v, prec, mode)
 	}
